@@ -38,7 +38,15 @@ assertion kind of the oracle has a fixed input, so the catch of a change never d
     in an inherited-from template; missing inherit target; body() arguments and their errors; def parameters and
     their errors; call with content in place; included templates (own blocks, parent absent, chain order, include
     from def and block, missing target); compile error inside a chain; members named like Namespace attributes
-    (F-C06-1); `local` in an intermediate template.
+    (F-C06-1); `local` in an intermediate template;
+  a def / block rendered on its own (`_entry_witnesses`, 17 cases; round 6, C06k): `get_template(T_j).get_def(x)
+    .render(**data)` for T_j the most derived, an intermediate and the base-most template of a chain - parent is the
+    adjacent template toward the base (each answering in turn), self and local are T_j, next is absent, module
+    attributes through local/parent/self, a block of an inheriting template with the data as pageargs, def
+    parameters picked from the data (and a missing one), call with content, get_def of a member only inherited,
+    chain ending in an inherit evaluating to None, controls without inherit. Verdict by `entry_render` (the rules of
+    the property text on the chain T_j..base); the same dimension at random in oracle.entry (`Gen.entry_case`,
+    250 draws in the quick tier, 85% from an inheriting template). The model has no such entry point: rules only.
 A violating case is shrunk and attributed to a recorded finding only by a causal test (`classify`): removing exactly
 that feature must make the implementation follow the rules again; anything else is reported under the sites
 `inheritance-dispatch` / `block-checks`, which no recorded finding matches.
@@ -71,7 +79,9 @@ RULE = ("chains of 1..5 templates; every level draws, per member name of a share
         "when the chain has >= 2 levels and some member is declared at >= 2 levels or a named block is nested; "
         "distinct = distinct (sources, render data). Compile stream: random def/block/call trees with planted "
         "duplicate names, def/block clashes, named blocks under defs/calls (directly, under anonymous blocks, "
-        "under nested or shadowed defs), anonymous blocks sharing a line.")
+        "under nested or shadowed defs), anonymous blocks sharing a line. Entry stream: the same chains (blocks on lines of their own, no planted faults), "
+        "a def or named block that template j declares itself (j an inheriting template in 85% of the draws; not a buffered block) rendered through "
+        "get_template(T_j).get_def(x).render(**data), data covering the def's required parameters except in 5% of the draws.")
 ASSUMPTIONS = [
     "member names are not 'body', not reserved names, do not start with '__M_' and are not '_get_star' (callable without arguments)",
     "module attribute names do not collide with names every generated module defines (runtime, filters, cache, UNDEFINED, render_*, _exports ...)",
@@ -459,8 +469,14 @@ class Impl:
         try:
             try:
                 lk, d = self.lookup(case)
-                t = lk.get_template(uri_of(0, case.get("fb")))
-                out = t.render(**dict(case.get("data", [])))
+                if case.get("entry"):
+                    # a def / block of template j rendered on its own: Template.get_def(name).render(**data)
+                    j, x = case["entry"]
+                    t = lk.get_template(uri_of(j, case.get("fb")))
+                    out = t.get_def(x).render(**dict(case.get("data", [])))
+                else:
+                    t = lk.get_template(uri_of(0, case.get("fb")))
+                    out = t.render(**dict(case.get("data", [])))
             except Exception as e:      # noqa
                 return ("exc", exc_kind(e))
             return ("ok", tokenize(out))
@@ -688,10 +704,47 @@ class Rules:
             return ("exc", e.kind)
 
 
+def entry_render(case):
+    """by the property text: `T_j.get_def(x).render(**data)` renders T_j's own definition of x with T_j as the most
+    derived template of the chain T_j .. base: self and local are T_j, parent is the adjacent template toward the base
+    (absent when T_j inherits nothing), next is absent; nothing of the templates that inherit from T_j is visible.
+    A def receives the entries of the data that name its parameters, a block all of them (as pageargs)."""
+    j, x = case["entry"]
+    full = Rules(case)
+    if not case.get("fb"):
+        # a put_string lookup compiles every template when it is put, also those the entry template never reaches
+        for l in full.levels[:j]:
+            if rules_compile_fault(l["nodes"]):
+                return ("exc", "compile")
+    if j > full.m:
+        return ("exc", "lookup")
+    sub = dict(case, levels=case["levels"][j:])
+    sub.pop("entry")
+    r = Rules(sub)
+    if rules_compile_fault(r.levels[0]["nodes"]):
+        return ("exc", "compile")
+    if x == "body" or x not in r.members[0]:
+        return ("exc", "attribute")          # get_def: the template itself has to declare the member
+    for l in r.levels[1:]:
+        if rules_compile_fault(l["nodes"]):
+            return ("exc", "compile")
+    if r.missing_target:
+        return ("exc", "lookup")
+    kind, _, msig = r.members[0][x]
+    data = [list(kv) for kv in case.get("data", [])]
+    kw = data if kind != "def" else [kv for kv in data if kv[0] in {p for p, _ in msig}]
+    try:
+        return ("ok", r.call(0, x, [], kw, 0))
+    except OErr as e:
+        return ("exc", e.kind)
+
+
 def oracle_render(case):
     old = sys.getrecursionlimit()
     sys.setrecursionlimit(max(old, 5000))
     try:
+        if case.get("entry"):
+            return entry_render(case)
         return Rules(case).render()
     finally:
         sys.setrecursionlimit(old)
@@ -858,6 +911,52 @@ class Gen:
         if faults:
             self.plant(case, eff)
         return case
+
+    def entry_case(self):
+        """a chain (a fifth of them with included chains) plus an entry point: a def or named block that template j of
+        the linked chain declares itself, rendered through get_def(name).render(**data); j is mostly an inheriting
+        template. None when the draw has nothing to render that way."""
+        rng = self.rng
+        c = self.chain_with_lib() if rng.random() < 0.2 else self.chain()
+        lib = c.get("lib")
+        c = spread_lines(c)          # every block on a line of its own (two anonymous blocks on one line: F-C06-2)
+        if lib is not None:
+            c["lib"] = lib           # (the included chains are spread already)
+        if rules_compile_fault_any(c) or any(rules_compile_fault_any(sc_) for sc_ in subcases(c)):
+            return None
+        r = Rules(c)
+        if r.missing_target:
+            return None
+        j = rng.randint(0, max(r.m - 1, 0)) if rng.random() < 0.85 else r.m
+        names = sorted(k for k in r.members[j] if k != "body")
+
+        def own_buffered(nodes):
+            acc = []
+            for b in block_defs(nodes, []):
+                if b.get("buf"):
+                    acc.append(b["n"])
+            return acc
+        # excluded, exactly: the entry member itself is a buffered="True" block - its render function returns the
+        # content instead of writing it and get_def().render() drops the return value (empty output); what a buffered
+        # member delivers to its caller is C05's subject, not the dispatch rules of C06
+        buf = set(own_buffered(c["levels"][j]["nodes"]))
+        names = [x for x in names if not (x in buf and r.members[j][x][0] == "block")]
+        if not names:
+            return None
+        x = rng.choice(names)
+        kind, _, msig = r.members[j][x]
+        data = []
+        if rng.random() < 0.4:
+            for k in rng.sample(["pa", "pb", "pz"], rng.randint(1, 2)):
+                data.append([k, rng.randint(10, 19)])
+        if rng.random() > self.wild:
+            have = {k for k, _ in data}
+            for p_, d_ in msig:
+                if d_ is None and p_ not in have:
+                    data.append([p_, rng.randint(10, 19)])
+        c["data"] = data
+        c["entry"] = [j, x]
+        return c
 
     def anon(self, kids):
         n = {"k": "b", "n": None, "kids": kids}
@@ -1149,6 +1248,11 @@ def shrink_case(case, fails, max_tests=250):
             if len(cur["levels"]) <= 1:
                 break
             c = copy.deepcopy(cur)
+            if c.get("entry"):
+                if k == c["entry"][0]:
+                    continue              # the template whose def is rendered stays
+                if k < c["entry"][0]:
+                    c["entry"] = [c["entry"][0] - 1, c["entry"][1]]
             del c["levels"][k]
             if c["levels"][-1]["inh"] in ("S", "D"):
                 c["levels"][-1]["inh"] = "N"
@@ -1380,6 +1484,9 @@ def public(case):
     parts = ["%s: %s" % (uri_of(i, c.get("fb")), s) for i, s in enumerate(srcs)]
     for sc_ in subcases(c):
         parts += ["%s: %s" % (uri_of(i, c.get("fb"), sc_["pre"]), s) for i, s in enumerate(sources(sc_))]
+    if c.get("entry"):
+        parts.append("rendered: lookup.get_template(%r).get_def(%r).render(**data)"
+                     % (uri_of(c["entry"][0], c.get("fb")), c["entry"][1]))
     return {"input": "\n---\n".join(parts),
             "data": c.get("data", []), "case": c}
 
@@ -1791,6 +1898,95 @@ def _render_witnesses():
     return out
 
 
+def _entry_witnesses():
+    """(label, case) - a def / block of a template of a chain rendered on its own through
+    `Template.get_def(name).render(**data)` (case["entry"] = [template index, member]); verdict by `entry_render`"""
+    ax = lambda r: {"k": "a", "r": r, "x": "ax"}
+    three = lambda: [_lv([_d("ma", [_t(1), _c("p", "ma")]), _t(4)], "S"),
+                     _lv([_d("ma", [_t(2), _c("p", "ma")]), _c("n", "body")], "D", form=1),
+                     _lv([_d("ma", [_t(3)]), _c("n", "body")])]
+    own = lambda: [_lv([_d("ma", [_t(1)]), _d("mb", [_c("l", "ma"), _c("s", "ma"), _c("p", "ma")])], "S"),
+                   _lv([_d("ma", [_t(2)]), _d("mb", [_t(5), _c("l", "ma"), _c("s", "ma"), _c("p", "ma")]), _c("n", "body")], "S"),
+                   _lv([_d("ma", [_t(3)]), _c("n", "body")])]
+    ws = [
+        ("def of the most derived template: parent is the adjacent template, each answering in turn",
+         {"levels": three(), "entry": [0, "ma"]}),
+        ("def of an intermediate template: the chain starts there", {"levels": three(), "entry": [1, "ma"]}),
+        ("def of the base-most template: parent absent", {"levels": three()[:2] + [_lv([_d("ma", [_t(3), _c("p", "ma")]), _c("n", "body")])],
+                                                          "entry": [2, "ma"]}),
+        ("local and self are the template of the def, parent the next one", {"levels": own(), "entry": [0, "mb"]}),
+        ("... from an intermediate template (T0 invisible)", {"levels": own(), "entry": [1, "mb"]}),
+        ("next is absent in a def rendered on its own",
+         {"levels": [_lv([_d("mb", [_t(1), _c("n", "ma")])], "S"), _lv([_d("ma", [_t(2)]), _c("n", "body")], "S"),
+                     _lv([_d("ma", [_t(3)]), _c("n", "body")])], "entry": [0, "mb"]}),
+        ("... also from an intermediate template",
+         {"levels": [_lv([_d("ma", [_t(1)])], "S"), _lv([_d("mb", [_t(2), _c("n", "ma")]), _c("n", "body")], "S"),
+                     _lv([_d("ma", [_t(3)]), _c("n", "body")])], "entry": [1, "mb"]}),
+        ("module attributes through local / parent / self",
+         {"levels": [_lv([_d("ma", [ax("l"), ax("p"), ax("s")])], "S", attrs=[["ax", 1000]]),
+                     _lv([_c("n", "body")], "S", attrs=[["ax", 2000]]), _lv([_c("n", "body")], attrs=[["ax", 3000]])],
+          "entry": [0, "ma"]}),
+        ("attribute only further toward the base, through local",
+         {"levels": [_lv([_d("ma", [ax("l"), ax("p")])], "S"), _lv([_c("n", "body")], "S", attrs=[["ax", 2000]]),
+                     _lv([_c("n", "body")], attrs=[["ax", 3000]])], "entry": [0, "ma"]}),
+        ("block of an inheriting template rendered on its own, data as pageargs",
+         {"levels": [_lv([_nb("mb", [_t(1), {"k": "g"}, _c("p", "mb"), _c("l", "mc")]), _d("mc", [_t(4)])], "S"),
+                     _lv([_nb("mb", [_t(2)]), _c("n", "body")], "S"), _lv([_nb("mb", [_t(3)]), _c("n", "body")])],
+          "entry": [0, "mb"], "data": [["pa", 11], ["pz", 12]]}),
+        ("def parameters taken from the data, the rest ignored; parent called with arguments",
+         {"levels": [_lv([_d("ma", [{"k": "g"}, _c("p", "ma", [51])], [["pa", None], ["pb", 1]])], "S"),
+                     _lv([_d("ma", [{"k": "g"}], [["pa", None], ["pb", 2]]), _c("n", "body")])],
+          "entry": [0, "ma"], "data": [["pa", 11], ["pz", 12]]}),
+        ("required def parameter missing from the data",
+         {"levels": [_lv([_d("ma", [{"k": "g"}], [["pa", None]])], "S"), _lv([_c("n", "body")])], "entry": [0, "ma"]}),
+        ("call with content and anonymous block in a def rendered on its own",
+         {"levels": [_lv([_d("ma", [_t(1), _x([_t(2), _c("p", "ma")], 0), _ab([_c("l", "mb")], nl=True)]), _d("mb", [_t(3)])], "S"),
+                     _lv([_d("ma", [_t(4)]), _d("mb", [_t(5)]), _c("n", "body")])], "entry": [0, "ma"]}),
+        ("get_def of a member the template only inherits",
+         {"levels": [_lv([_t(1)], "S"), _lv([_d("ma", [_t(2)]), _c("n", "body")])], "entry": [0, "ma"]}),
+        ("control: template without inherit - local/self, parent absent",
+         {"levels": [_lv([_d("ma", [_t(1)]), _d("mb", [_c("l", "ma"), _c("s", "ma")])])], "entry": [0, "mb"]}),
+        ("control: template without inherit - parent absent",
+         {"levels": [_lv([_d("ma", [_t(1)]), _d("mb", [_c("l", "ma"), _c("p", "ma")])])], "entry": [0, "mb"]}),
+        ("def whose chain ends in an inherit evaluating to None",
+         {"levels": [_lv([_d("ma", [_t(1), _c("p", "ma")])], "S"), _lv([_d("ma", [_t(2)]), _c("n", "body")], "Z", form=0)],
+          "entry": [0, "ma"]}),
+    ]
+    out = []
+    for label, c in ws:
+        c.setdefault("data", [])
+        out.append((label, c))
+    return out
+
+
+def oracle_entry(ctx, impl, gen, n):
+    """oracle.entry - random chains, a def or block of one of their templates rendered on its own (rules vs mako)"""
+    st = ctx.stream("oracle.entry", "oracle")
+    nviol = 0
+    done = 0
+    tries = 0
+    while done < n and tries < 20 * n:
+        tries += 1
+        c = gen.entry_case()
+        if c is None:
+            continue
+        try:
+            want = oracle_render(c)
+        except Discard:
+            ctx.branch("oracle:discarded")
+            continue
+        done += 1
+        st["cases"] += 1
+        real = impl.render(c)
+        j, x = c["entry"]
+        ctx.branch("entry:%s:%s" % ("base" if j == Rules(c).m else "inheriting", real[1] if real[0] == "exc" else "ok"))
+        if j < Rules(c).m:
+            ctx.nontriv(("entry", tuple(sources(c)), j, x, tuple(map(tuple, c["data"]))))
+        if want != real and nviol < 4:
+            nviol += 1
+            report_violation(ctx, impl, c, "oracle.entry")
+
+
 def oracle_fixed_witnesses(ctx, impl):
     """every assertion kind of the oracle on a fixed input, on every run: model vs mako (corr.witnesses) and
     property text vs mako (oracle.witnesses)"""
@@ -1839,6 +2035,14 @@ def oracle_fixed_witnesses(ctx, impl):
             sc["cases"] += 1
             if parse_model_render(o) != real:
                 ctx.disagree("corr.witnesses", dict(public(c), witness=label), parse_model_render(o), real)
+        if oracle_render(c) != real:
+            report_violation(ctx, impl, c, "oracle.witnesses")
+    # a def / block rendered on its own (property text vs mako; the model has no such entry point)
+    for label, c in _entry_witnesses():
+        c = copy.deepcopy(c)
+        st["cases"] += 1
+        real = impl.render(c)
+        ctx.branch("witness-entry:" + (real[1] if real[0] == "exc" else "ok"))
         if oracle_render(c) != real:
             report_violation(ctx, impl, c, "oracle.witnesses")
 
@@ -1897,6 +2101,7 @@ def run(ctx):
             guarded("render.files", lambda: corr_and_oracle_render(ctx, impl, gen, 60, "files", fb=1))
         guarded("build+attrs", lambda: corr_build_attrs(ctx, impl, gen, 300 if ctx.quick else 5000))
         guarded("check", lambda: corr_and_oracle_check(ctx, gen, 2500 if ctx.quick else 40000))
+        guarded("entry", lambda: oracle_entry(ctx, impl, gen, 250 if ctx.quick else 4000))
         guarded("witnesses", lambda: oracle_witnesses(ctx, impl))
         guarded("fixed-witnesses", lambda: oracle_fixed_witnesses(ctx, impl))
         if cases:
@@ -1930,7 +2135,10 @@ def replay(ctx, data):
             real = impl.render(c)
             print("mako    :", real)
             print("rules   :", oracle_render(c))
-            print("model   :", parse_model_render(ctx.driver().ask(render_req(c))))
+            if c.get("entry"):
+                print("model   : (a def rendered on its own is compared with the rules only)")
+            else:
+                print("model   :", parse_model_render(ctx.driver().ask(render_req(c))))
             return oracle_render(c) == real
         print("nothing to replay in", list(data))
         return False
